@@ -65,13 +65,11 @@ Definition spare (s : sys) (r : ring) : Z := rcap (s_cap s) - rlen r.
 (** [LocalQueue::len()]: [capacity().saturating_sub(spare_capacity())] *)
 Definition hlen (s : sys) (r : ring) : Z := sat_sub (rcap (s_cap s)) (spare s r).
 
-Definition set_nth {A} := @OWS.set_nth A.
-
 Definition upd_handle (s : sys) (h : nat) (hd : handle) : sys :=
   {| s_cap := s_cap s; s_shq := s_shq s; s_shlen := s_shlen s; s_locals := s_locals s;
-     s_handles := set_nth h hd (s_handles s); s_index := s_index s |}.
+     s_handles := OWS.set_nth h hd (s_handles s); s_index := s_index s |}.
 Definition upd_local (s : sys) (i : nat) (r : ring) : sys :=
-  {| s_cap := s_cap s; s_shq := s_shq s; s_shlen := s_shlen s; s_locals := set_nth i r (s_locals s);
+  {| s_cap := s_cap s; s_shq := s_shq s; s_shlen := s_shlen s; s_locals := OWS.set_nth i r (s_locals s);
      s_handles := s_handles s; s_index := s_index s |}.
 Definition upd_shared (s : sys) (q : list item) (n : Z) : sys :=
   {| s_cap := s_cap s; s_shq := q; s_shlen := n; s_locals := s_locals s;
@@ -161,9 +159,6 @@ Fixpoint steal_scan (order : list nat) (s : sys) (ix : nat) : option sys :=
         end
   end.
 
-Definition tick := OWS.tick.
-Definition scan_order := OWS.scan_order.
-
 (** [self.queue.pop()] on the ring of local queue [ix] *)
 Definition ring_pop (s : sys) (ix : nat) : sys * option item :=
   match local_of s ix with
@@ -171,33 +166,36 @@ Definition ring_pop (s : sys) (ix : nat) : sys * option item :=
   | x :: r => (upd_local s ix r, Some x)
   end.
 
+(** [LocalQueue::pop] after the tick and the shared-first attempt: own ring, sibling scan, shared queue *)
+Definition lpop_rest (s : sys) (ix : nat) (start : nat) : sys * obs :=
+  match ring_pop s ix with
+  | (s2, Some x) => (s2, OItem (Some x))
+  | (s2, None) =>
+      (* try_lock succeeds: the flag is per handle and is released before every return *)
+      let n := length (s_locals s2) in
+      match steal_scan (OWS.scan_order n start) s2 ix with
+      | Some s3 => let '(s4, r) := ring_pop s3 ix in (s4, OItem r)
+      | None =>
+          match gpop s2 with
+          | None => (s2, ODiverged)
+          | Some (s3, r) => (s3, OItem r)
+          end
+      end
+  end.
+
 (** [LocalQueue::pop] *)
 Definition lpop (s : sys) (h : nat) (start : nat) : sys * obs :=
   match nth_error (s_handles s) h with
   | None => (s, OBad)
   | Some hd0 =>
-      let '(t', tv) := tick (h_tick hd0) in
+      let '(t', tv) := OWS.tick (h_tick hd0) in
       let ix := h_ix hd0 in
       let s := upd_handle s h {| h_ix := ix; h_tick := t' |} in
       let first := if tv mod 61 =? 0 then gpop s else Some (s, None) in
       match first with
       | None => (s, ODiverged)
       | Some (s1, Some x) => (s1, OItem (Some x))
-      | Some (s1, None) =>
-          match ring_pop s1 ix with
-          | (s2, Some x) => (s2, OItem (Some x))
-          | (s2, None) =>
-              (* try_lock succeeds: the flag is per handle and is released before every return *)
-              let n := length (s_locals s2) in
-              match steal_scan (scan_order n start) s2 ix with
-              | Some s3 => let '(s4, r) := ring_pop s3 ix in (s4, OItem r)
-              | None =>
-                  match gpop s2 with
-                  | None => (s2, ODiverged)
-                  | Some (s3, r) => (s3, OItem r)
-                  end
-              end
-          end
+      | Some (s1, None) => lpop_rest s1 ix start
       end
   end.
 
